@@ -78,34 +78,61 @@ theorem pick_range' (d : List Char) (s n : Nat) (h : s + n ≤ d.length) :
     simp only [List.range'_succ, pick, List.getElem?_eq_getElem hs, ih (s + 1) (by omega)]
     rw [List.drop_eq_getElem_cons hs, List.take_succ_cons]
 
+theorem adjust_bounds (x : Int) (n : Nat) : 0 ≤ adjust x n 0 n ∧ adjust x n 0 n ≤ n := by
+  unfold adjust
+  repeat' split
+  all_goals omega
+
+theorem startOf_bounds (n : Nat) (a : Option Int) : 0 ≤ startOf n a ∧ startOf n a ≤ n := by
+  unfold startOf; cases a with
+  | none => simp
+  | some x => exact adjust_bounds x n
+
+theorem stopOf_bounds (n : Nat) (b : Option Int) : 0 ≤ stopOf n b ∧ stopOf n b ≤ n := by
+  unfold stopOf; cases b with
+  | none => simp
+  | some x => exact adjust_bounds x n
+
+/-- normalised bounds of a unit-step slice: `rs = indices[0]`, `re = max(rs, indices[1])`, as naturals -/
+def normStart (n : Nat) (a : Option Int) : Nat := (startOf n a).toNat
+def normEnd (n : Nat) (a b : Option Int) : Nat := max (normStart n a) (stopOf n b).toNat
+
+theorem norm_bounds (n : Nat) (a b : Option Int) : normStart n a ≤ normEnd n a b ∧ normEnd n a b ≤ n := by
+  have h1 := startOf_bounds n a
+  have h2 := stopOf_bounds n b
+  unfold normEnd normStart
+  omega
+
+/-- Python's unit-step slice selects the contiguous indices `[rs, re)` -/
+theorem sliceIndices_unit (n : Nat) (a b c : Option Int) (hc : c = none ∨ c = some 1) :
+    sliceIndices n a b c = .ok (List.range' (normStart n a) (normEnd n a b - normStart n a)) := by
+  have h1 := startOf_bounds n a
+  have h2 := stopOf_bounds n b
+  have hcnt : (if stopOf n b ≤ startOf n a then 0 else ((stopOf n b - startOf n a + 1 - 1) / 1).toNat) =
+      normEnd n a b - normStart n a := by
+    unfold normEnd normStart
+    split <;> omega
+  have hmap : (List.range (normEnd n a b - normStart n a)).map (fun (i : Nat) => (startOf n a + 1 * (i : Int)).toNat) =
+      List.range' (normStart n a) (normEnd n a b - normStart n a) := by
+    rw [List.range'_eq_map_range]
+    apply List.map_congr_left
+    intro i _
+    unfold normStart
+    omega
+  rcases hc with rfl | rfl <;>
+  · unfold sliceIndices
+    simp only [show ¬ ((1 : Int) = 0) by decide, show (1 : Int) > 0 by decide, if_true, if_false, pure, Except.pure,
+      hcnt, hmap]
+
 theorem sliceIndices_plain (n s e : Nat) (hse : s ≤ e) (he : e ≤ n) :
-    sliceIndices n (some (s : Int)) (some (e : Int)) none = .ok (List.range' s (e - s)) := by
-  unfold sliceIndices adjust
+    normStart n (some (s : Int)) = s ∧ normEnd n (some (s : Int)) (some (e : Int)) = e := by
+  unfold normEnd normStart startOf stopOf adjust
   have h1 : ¬ ((s : Int) < 0) := by omega
   have h2 : ¬ ((s : Int) > (n : Int)) := by omega
   have h3 : ¬ ((e : Int) < 0) := by omega
   have h4 : ¬ ((e : Int) > (n : Int)) := by omega
-  simp only [h1, h2, h3, h4, if_false, show ¬ ((1 : Int) = 0) by decide, show (1 : Int) > 0 by decide, if_true,
-    pure, Except.pure]
-  congr 1
-  have hcnt : (if (e : Int) ≤ (s : Int) then 0 else (((e : Int) - (s : Int) + 1 - 1) / 1).toNat) = e - s := by
-    split <;> omega
-  rw [hcnt, List.range'_eq_map_range]
-  apply List.map_congr_left
-  intro i _
+  simp only [h1, h2, h3, h4, if_false]
   omega
-
-theorem getSlice_data (x : SeqObj) (s e : Nat) (hse : s ≤ e) (he : e ≤ x.data.length) (y : SeqObj)
-    (h : getSlice x (some (s : Int)) (some (e : Int)) none = .ok y) :
-    y.data = (x.data.drop s).take (e - s) := by
-  unfold getSlice at h
-  rw [sliceIndices_plain _ s e hse he] at h
-  simp only [bind, Except.bind] at h
-  cases hc : childPar x.par (some (s : Int)) (some (e : Int)) with
-  | error err => simp [hc] at h
-  | ok np =>
-    simp only [hc, pure, Except.pure, Except.ok.injEq] at h
-    rw [← h, pick_range' _ _ _ (by omega)]
 
 /-- a located sequence object whose characters are the sequence of its location -/
 structure Consistent (P alph : List Char) (x : SeqObj) (l : Location) (loc : Loc) : Prop where
@@ -125,34 +152,40 @@ theorem resetLocation_ok (m : Location) (st : Strand) (hs : locationStrand? m = 
   | single b s => simp only [locStrand]; split <;> exact ⟨_, rfl⟩
   | compound c => simp only [locStrand]; split <;> exact ⟨_, rfl⟩
 
-/-- **C03-T4 (slices)**: an in-range slice `x[s:e]` of a consistent object on a non-self-overlapping, non-empty
-    location is answered, holds `str(x)[s:e]`, and its recorded location extracts exactly those characters -/
+/-- **C03-T4 (slices)**: EVERY unit-step slice `x[a:b]` (bounds `None`, negative, past the end or reversed,
+    normalised like Python's `slice.indices`: `rs = normStart`, `re = max(rs, stop) = normEnd`) of a consistent
+    object on a non-self-overlapping, non-empty location is answered, holds `str(x)[rs:re]`, and its recorded
+    location extracts exactly those characters (an empty slice records a zero-length location) -/
 theorem slice_consistent (P alph : List Char) (hnt : isNt alph = true) (x : SeqObj) (l : Location) (loc : Loc)
-    (hc : Consistent P alph x l loc) (hlen : 0 < loc.len) (s e : Nat) (hse : s ≤ e) (he : e ≤ x.data.length) :
-    ∃ y m pst, getSlice x (some (s : Int)) (some (e : Int)) none = .ok y ∧
-      y.data = (x.data.drop s).take (e - s) ∧ y.par = some ⟨pst, some m⟩ ∧ WF m ∧ Within P m ∧
+    (hc : Consistent P alph x l loc) (hlen : 0 < loc.len) (a b c : Option Int) (hstep : c = none ∨ c = some 1) :
+    ∃ y m pst, getSlice x a b c = .ok y ∧
+      y.data = (x.data.drop (normStart x.data.length a)).take
+        (normEnd x.data.length a b - normStart x.data.length a) ∧
+      y.par = some ⟨pst, some m⟩ ∧ WF m ∧ Within P m ∧
       locationStrand? m = some loc.strand ∧ ans (extract P alph m) = some y.data := by
   obtain ⟨pst, hp⟩ := hc.par
   have hdl := expect_length P alph l loc hc.toLoc hc.dir x.data hc.data
+  have hb := norm_bounds x.data.length a b
+  have h1 := startOf_bounds x.data.length a
+  have h2 := stopOf_bounds x.data.length b
+  generalize hrs : normStart x.data.length a = rs at hb
+  generalize hre : normEnd x.data.length a b = re at hb
   obtain ⟨m, hm, hwf, hW, hs, hne, hex⟩ :=
-    sub_extract P alph hnt l hc.wf loc hc.toLoc hc.within hc.dir hc.nonOverlap hlen s e hse (by omega) x.data hc.data
+    sub_extract P alph hnt l hc.wf loc hc.toLoc hc.within hc.dir hc.nonOverlap hlen rs re hb.1 (by omega)
+      x.data hc.data
   obtain ⟨pst', hr⟩ := resetLocation_ok m loc.strand hs
-  have hrel : relIntervalOpt l (some (s : Int)) (some (e : Int)) = .ok m := by
-    unfold relIntervalOpt
-    cases l with
-    | single b st =>
-      have : ¬ ((s : Int) < 0) := by omega
-      simp only [this, if_false]; exact hm
-    | compound c => exact hm
-    | empty => have := hc.toLoc; simp [Spec.toLoc] at this
-  have hget : getSlice x (some (s : Int)) (some (e : Int)) none =
-      .ok ⟨pick x.data (List.range' s (e - s)), some ⟨pst', some m⟩⟩ := by
-    unfold getSlice childPar
-    rw [sliceIndices_plain _ s e hse he]
-    simp only [hp, hrel, hr, bind, Except.bind, pure, Except.pure]
+  have e1 : startOf x.data.length a = (rs : Int) := by rw [← hrs]; unfold normStart; omega
+  have e2 : max (rs : Int) (stopOf x.data.length b) = (re : Int) := by
+    rw [← hre, ← hrs]; unfold normEnd normStart; omega
+  have hget : getSlice x a b c = .ok ⟨pick x.data (List.range' rs (re - rs)), some ⟨pst', some m⟩⟩ := by
+    have hsi := sliceIndices_unit x.data.length a b c hstep
+    rw [hrs, hre] at hsi
+    rcases hstep with rfl | rfl <;>
+    · unfold getSlice childPar
+      simp only [hsi, hp, ne_eq, not_true_eq_false, if_false, e1, e2, hm, hr, bind, Except.bind, pure, Except.pure]
   refine ⟨_, m, pst', hget, ?_, rfl, hwf, hW, hs, ?_⟩
   · exact pick_range' _ _ _ (by omega)
-  · simp only [pick_range' x.data s (e - s) (by omega)]; exact hex
+  · simp only [pick_range' x.data rs (re - rs) (by omega)]; exact hex
 
 /-! ### reverse complement -/
 
